@@ -68,7 +68,7 @@ def run(ctx):
                 detail = "plain `*` can overflow"
             ctx.check(ok, "R03.1", key, loc(b, c.bb),
                       "a count is written that does not carry the sampling multiplicity (or combines it with a non-saturating multiplication): %s" % detail, detail)
-        ctx.floor("R03.1", "count writes in the observation writer", n, 3)
+        ctx.floor("R03.1", "count writes in the observation writer", n, 1)
         # threading of the multiplicity from the caller chain
         chain_ok, how = thread_param(F, b, mult, depth=4)
         ctx.check(chain_ok, "R03.1", fnkey(b) + "#multiplicity-threaded-from-format", loc(b), how, how)
